@@ -106,6 +106,22 @@ class PC:
     def __repr__(self):
         return f"PC(a={self.a!r}, b={self.b!r})"
 
+class PCcv:
+    """annotated plain class with a ClassVar next to its fields"""
+    kind: typing.ClassVar[str] = "pccv"
+    a: int
+    b: str
+    __tlmc_fields__ = ("a", "b")
+    def __init__(self, a: int, b: str = "x"):
+        self.a = a
+        self.b = b
+    def __eq__(self, o):
+        return type(o) is type(self) and (self.a, self.b) == (o.a, o.b)
+    def __hash__(self):
+        return hash((self.a, self.b))
+    def __repr__(self):
+        return f"PCcv(a={self.a!r}, b={self.b!r})"
+
 class SC:
     __slots__ = ("a", "b")
     a: int
